@@ -1,7 +1,7 @@
 #!/usr/bin/env python3
 """tools/dumpfn.py <function> ... - print the normalised body of a function as the rules see it (debugging aid)."""
 import sys
-sys.path.insert(0, '/verif')
+import os as _os; sys.path.insert(0, _os.path.dirname(_os.path.dirname(_os.path.abspath(__file__))))
 from sa.rules import common
 from sa.astutil import render, kids
 
